@@ -66,6 +66,22 @@ def r1_evidence(ctx, f, rep, eff):
     rep.check(set(w) <= {'probe::Probe::clear', 'probe::Probe::receive_indirect_ack', 'probe::Probe::expect_indirect_ack'},
               'C12-R1', PROBE, 'the list of asked helpers is touched only by clear / expect_indirect_ack / '
               'receive_indirect_ack', construct='writers-helpers', facts={'writers': w})
+    # the round in flight (and the probe-number counter) lives in Foca.probe: the field is never reassigned, a Probe is
+    # built only by the constructor, and it is cleared only where an epoch ends or a new round starts
+    w = sorted(eff.writers_of('Foca', 'probe', kinds=('W',)))
+    rep.check(w == [], 'C12-R1', 'Foca', 'Foca.probe is never reassigned (a running round is not dropped, probe numbers are not '
+              'recycled)', construct='probe-never-replaced', facts={'writers': w})
+    m = set(eff.writers_of('Foca', 'probe', kinds=('M',)))
+    rep.check(m <= {'Foca::become_disconnected', 'Foca::become_undead', 'Foca::handle_data', 'Foca::handle_timer',
+                    'Foca::probe_random_member', 'Foca::reset'}, 'C12-R1', 'Foca', 'Foca.probe is lent mutably only to the probe '
+              'handlers and the epoch-ending functions', construct='probe-borrowers', facts={'borrowers': sorted(m)})
+    cs = sorted({c[0].nname for c in f.callers_of(lambda x: x == 'probe::Probe::new')})
+    rep.check(cs == ['Foca::with_custom_broadcast'], 'C12-R1', PROBE, 'a Probe is constructed only by the constructor',
+              construct='probe-new-callers', facts={'callers': cs})
+    cs = set(c[0].nname for c in f.callers_of(lambda x: x == 'probe::Probe::clear'))
+    rep.check(cs <= {'Foca::become_disconnected', 'Foca::become_undead', 'Foca::probe_random_member', 'Foca::reset',
+                     'probe::Probe::start'}, 'C12-R1', PROBE, 'Probe::clear is called only when an epoch ends or a new round '
+              'starts', construct='probe-clear-callers', facts={'callers': sorted(cs)})
     b = f.fn('probe::Probe::receive_ack')
     n = 0
     for p in ctx.paths(f, b, 'none'):
